@@ -336,9 +336,14 @@ def _decide_verus_unit(unit, tier, workdir, W, seed):
             obligations.append({"name": f"{unit['name']}/witness-search", "backend": "cargo test (executable postcondition on the real code)", "ok": ok, "us": 0,
                                 "bounded": unit.get("witness_bound", f"{w['cases']} grid cases"), "kind": "bounded"})
             if not ok:
-                f0 = w["fails"][0]
-                failures.append({"obligation": f"{unit['name']}/{f0.get('fn', '?')}", "clause": f0.get("clause", ""), "msg": "bounded search on the real code found a failing input",
-                                 "raw": json.dumps(w["fails"][:5]), "unit": unit["name"], "fn": f0.get("fn"), "input": {"failing_inputs": w["fails"][:5], "cases_tried": w["cases"]}})
+                # one failure per failing input (up to a cap), so that a recorded known finding is matched input by input and
+                # any OTHER failing input is still reported
+                for f0 in w["fails"][:60]:
+                    failures.append({"obligation": f"{unit['name']}/{f0.get('fn', '?')}", "clause": f0.get("clause", ""), "msg": "bounded search on the real code found a failing input",
+                                     "raw": json.dumps(f0), "unit": unit["name"], "fn": f0.get("fn"), "input": {"failing_inputs": [f0], "cases_tried": w["cases"]}})
+                if len(w["fails"]) > 60:
+                    failures.append({"obligation": f"{unit['name']}/witness-search", "clause": "more failing inputs than the reporting cap", "msg": f"{len(w['fails'])} failing inputs",
+                                     "raw": "", "unit": unit["name"], "fn": None, "input": {"failing_inputs": w["fails"][60:65], "cases_tried": w["cases"]}})
     # vacuity canary
     can = run_verus(unit, workdir, canary=True)
     canres = {f["fn"]: f for f in can["functions"]}
